@@ -219,8 +219,10 @@ fn render(op: Op, f: Flavor) -> Vec<Stmt> {
         Upd2 => vec![st("UPDATE t SET a = NULL, b = 'x' WHERE id = 2", &[])],
         UpdAll => match f {
             Flavor::Pk => vec![st("UPDATE t SET id = id + 1000", &[])],
-            Flavor::Uniq => vec![st("UPDATE t SET a = a + 10", &[])],
-            Flavor::A => vec![st("UPDATE t SET a = a + 1", &[])],
+            // `WHERE a IS NOT NULL`: at this commit `NULL + 1` in UPDATE SET is an error ("unsupported types … for Plus"),
+            // which would make the operation a no-op on both twins whenever a NULL row exists
+            Flavor::Uniq => vec![st("UPDATE t SET a = a + 10 WHERE a IS NOT NULL", &[])],
+            Flavor::A => vec![st("UPDATE t SET a = a + 1 WHERE a IS NOT NULL", &[])],
             Flavor::Text => vec![st("UPDATE t SET b = b || 'a'", &[])],
         },
         Del1 => vec![st("DELETE FROM t WHERE id = 1", &[])],
